@@ -61,7 +61,7 @@ class ScalarTableLookup(Family):
     name = "HashTable.__getitem__[scalar-valued]"
     qualname = "npstructures.hashtable:HashTable.__getitem__"
     serves = ["C11"]
-    assumed = ["callee contract HashTable._get_indices: raises IndexError iff some queried key is absent (bounded stand-in)"]
+    assumed = ["callee contract HashTable._get_indices: raises IndexError iff some queried key is absent (proved: HashTable._get_indices)"]
 
     def kinds(self):
         return ["vector-present", "vector-absent", "single", "array-valued"]
